@@ -53,7 +53,7 @@ Q, T, D = ["quick"], ["thorough"], ["dev"]
 MIG_MC = [
     dict(name="mcAll3", tiers=D + Q + T, consts=consts(**ALL, stake=3, ticks=1), overrides=STD),
     dict(name="mcGov2", tiers=D + Q + T, consts=consts(**GOV2, props=2, govops=4), overrides=GOVC),
-    dict(name="mcMixed", tiers=Q + T, consts=consts(**MIXED, stake=2, ticks=1, props=1, govops=3), overrides=STD),
+    dict(name="mcMixed", tiers=T, consts=consts(**MIXED, stake=2, ticks=1, props=1, govops=3), overrides=STD),
     dict(name="mcAll4", tiers=T, consts=consts(**ALL, stake=4, ticks=1), overrides=STD, timeout=1200),
     dict(name="mcOne6", tiers=T, consts=consts(**ONE, stake=6, ticks=2), overrides=STD, timeout=1200),
     dict(name="mcShared6", tiers=T, consts=consts(**SHARED, stake=6, ticks=1), overrides=STD),
